@@ -17,12 +17,26 @@ that uses `include_custom_schema_directives=False` and `include_introspection=Fa
 Called from corr/C12.py:run (one call).
 """
 PART = "C12_text"
+PRE_QUOTA = 80   # `build` of the converted document is evaluated on the first PRE_QUOTA printed schemas (~30 ms each)
 
 SHAPE_SDL = """
 directive @tag(n: Int, m: String) on FIELD
 type Query { a(x: Int = 3, y: String): Int  b: String }
 enum Color { RED GREEN }
 input Filter { color: Color = RED, limit: Int }
+"""
+
+BOUNDARY_SDL = """
+type Query {
+  f(a: Float = 2147483647.0, b: Float = 2147483648.0, c: Float = -2147483648.0, d: Float = -2147483649.0, e: Float = 2147483646.0,
+    m: Float = -2147483647.0, g: Int = 2147483647, h: Int = -2147483648, i: Float = 1e21, j: Float = 1.5e-7, n: Float = 3, p: Float = 0.1,
+    k: ID = 2147483648, q: [Float!] = [1, 2.5, 1e3]): Int
+}
+input In { x: Float = 2147483647.0, y: Int = 0, z: ID = 7 }
+"""
+# an ID numeral beyond 2^53: the printer's f (v + ".0") is NOT Python's repr(float(v)) -- outside CanonDoc, although build never reads f there
+BOUNDARY_SDL_BIG_ID = """
+type Query { f(l: ID = "9007199254740993", a: Float = 2.5): Int }
 """
 
 SHAPES = [
@@ -218,6 +232,32 @@ def run_custom(ctx, histories, wire_schema):
                                            "application, %d write the schema block only because of a directive node" % (n_wf, n_desc, n_kept, n_block))
 
 
+def numeral_reprs(real):
+    """[[v, repr(float(v))]] for every Int / Float literal of the real printed text (the `rho` of `SdlText.astToDoc`:
+    what the AST -> wire conversion computes for `Lit.int v f` / `Lit.float v f`)"""
+    from py_gql.lang import parse, ast as _ast
+    out, seen, todo = [], set(), []
+    try:
+        todo = [parse(real, allow_type_system=True)]
+    except Exception:  # noqa
+        return out
+    while todo:
+        n = todo.pop()
+        if isinstance(n, (list, tuple)):
+            todo.extend(n)
+        elif isinstance(n, _ast.Node):
+            if isinstance(n, (_ast.IntValue, _ast.FloatValue)) and n.value not in seen:
+                seen.add(n.value)
+                try:
+                    out.append([n.value, repr(float(n.value))])
+                except Exception:  # noqa
+                    pass
+            for k in getattr(type(n), "__slots__", ()):
+                if k not in ("loc", "source"):
+                    todo.append(getattr(n, k, None))
+    return out
+
+
 def run(ctx, histories, wire_schema):
     if not ctx.model_ok or not ctx.driver.available():
         return
@@ -228,6 +268,7 @@ def run(ctx, histories, wire_schema):
     from py_gql.lang import parse
     reqs, meta = [], []
     seen = set()
+    n_want = n_shape_req = 0
     for schemas, hist, outs in histories:
         for (i, o), out in zip(hist, outs):
             if o["include_introspection"] or o["include_custom_schema_directives"] or out[0] != "ok":
@@ -238,7 +279,9 @@ def run(ctx, histories, wire_schema):
                 continue
             seen.add(key)
             ws = wire_schema(schemas[i][2])
-            reqs.append({"op": "printT", "schema": ws["schema"], "indent": ind, "descriptions": o["include_descriptions"]})
+            n_want += bool(o["include_descriptions"])
+            reqs.append({"op": "printT", "schema": ws["schema"], "indent": ind, "descriptions": o["include_descriptions"],
+                         "reprs": numeral_reprs(out[1]), "wantPre": bool(o["include_descriptions"]) and n_want <= PRE_QUOTA})
             meta.append((schemas[i][1], o, out[1]))
     try:
         for src, sch in shape_cases():
@@ -246,8 +289,10 @@ def run(ctx, histories, wire_schema):
             for indent in (4, 2, "\t"):
                 o = dict(indent=indent, include_descriptions=True, include_introspection=False, include_custom_schema_directives=False)
                 ind = (" " * indent) if isinstance(indent, int) else indent
-                reqs.append({"op": "printT", "schema": ws["schema"], "indent": ind, "descriptions": True})
                 real = sch.to_string(**o)
+                n_shape_req += 1
+                reqs.append({"op": "printT", "schema": ws["schema"], "indent": ind, "descriptions": True, "reprs": numeral_reprs(real),
+                             "wantPre": n_shape_req % 24 == 1})
                 meta.append((src, o, real))
                 ctx.stat("textT-description-shapes")
                 if ":uniform:" in src:
@@ -255,13 +300,31 @@ def run(ctx, histories, wire_schema):
     except Exception as e:  # noqa
         ctx.fail("internal:shape-corpus:%s" % type(e).__name__, "the description-shape corpus could not be built / printed",
                  {"part": PART, "error": repr(e)})
+    # NUMERAL BOUNDARIES (deterministic probe): Float defaults at the edges of the Int range (integral floats inside the OPEN
+    # range print as Int literals), Int extremes, exponent forms, big ID numerals -- exact text against both models, and the
+    # every-pre-image statement with Python's repr(float(v)) on each numeral
+    try:
+        from py_gql import build_schema
+        for bsrc, bsdl, indent in (("numeral-boundaries", BOUNDARY_SDL, 4), ("numeral-boundaries", BOUNDARY_SDL, "\t"),
+                                   ("numeral-boundaries:big-id", BOUNDARY_SDL_BIG_ID, 4)):
+            bsch = build_schema(bsdl)
+            ws = wire_schema(bsch)
+            o = dict(indent=indent, include_descriptions=True, include_introspection=False, include_custom_schema_directives=False)
+            ind = (" " * indent) if isinstance(indent, int) else indent
+            real = bsch.to_string(**o)
+            reqs.append({"op": "printT", "schema": ws["schema"], "indent": ind, "descriptions": True, "reprs": numeral_reprs(real), "wantPre": True})
+            meta.append((bsrc, o, real))
+            ctx.stat("textT-numeral-boundaries")
+    except Exception as e:  # noqa
+        ctx.fail("internal:numeral-boundaries:%s" % type(e).__name__, "the numeral-boundary probe could not be built / printed",
+                 {"part": PART, "error": repr(e)})
     if not reqs:
         return
     import time as _t
     _t0 = _t.time()
     answers = ctx.driver.ask(reqs)
     ctx.extra["textT_driver_seconds"] = round(_t.time() - _t0, 1)
-    n_wf = n_desc = n_shape = n_shape_wf = 0
+    n_wf = n_desc = n_shape = n_shape_wf = n_canon = n_pre = n_num = n_off = n_off_wf = 0
     for (src, o, real), a in zip(meta, answers):
         ctx.count()
         ctx.stat("textT")
@@ -273,6 +336,22 @@ def run(ctx, histories, wire_schema):
         if not a.get("same"):
             ctx.fail("corr:printT:first-model", "the two models of the printer (printSchemaT / printSchema) differ", detail,
                      kind="correspondence")
+        if not o["include_descriptions"]:
+            # `print_schema_text_parses_nodesc` evaluated: descriptions off = the description-free schema, descriptions on
+            n_off += 1
+            if a.get("wfStrip"):
+                n_off_wf += 1
+                ctx.nontrivial(("textT-nodesc", real))
+                if not a.get("parsesStrip"):
+                    ctx.fail("corr:printT:textParsesNoDesc", "printTextWF holds of the description-free schema but the model's lexer+parser "
+                             "do not return the tree of its printed document for the text printed with descriptions off "
+                             "(print_schema_text_parses_nodesc evaluated)", detail, kind="correspondence")
+                try:
+                    parse(real, allow_type_system=True)
+                except Exception as e:  # noqa
+                    ctx.fail("text-unparsable:%s:printTextWF-nodesc" % type(e).__name__,
+                             "printTextWF holds of the description-free schema but the real parser rejects the text printed with "
+                             "include_descriptions=False", detail)
         if o["include_descriptions"]:
             n_desc += 1
             shape = isinstance(src, str) and src.startswith("description-shapes")
@@ -289,5 +368,30 @@ def run(ctx, histories, wire_schema):
                 except Exception as e:  # noqa
                     ctx.fail("text-unparsable:%s:printTextWF" % type(e).__name__,
                              "printTextWF holds but the real parser rejects the real printed text", detail)
+                # `text_roundtrip_every_preimage` evaluated with Python's repr(float(.)): when the printer's `f` components are
+                # what Python computes on the printed numerals (`canon`), the document the conversion makes of the PARSED tree
+                # builds what the printer's own document builds
+                if not a.get("preEvaluated"):
+                    pass
+                elif a.get("canon"):
+                    n_canon += 1
+                    if a.get("preimage"):
+                        n_pre += 1
+                        if any(ch.isdigit() for ch in real) and numeral_reprs(real):
+                            n_num += 1
+                    else:
+                        ctx.fail("corr:printT:everyPreimage", "printTextWF and CanonDoc hold but the document converted from the parsed tree "
+                                 "(astToDoc) does not build what the printed document builds (text_roundtrip_every_preimage evaluated)",
+                                 detail, kind="correspondence")
+                else:
+                    # outside the theorem's hypothesis; recorded: the conclusion holds anyway when build does not read the differing f
+                    ctx.stat("textT-printer-f-differs-from-python-repr:preimage-%s" % ("holds" if a.get("preimage") else "fails"))
+                if src == "numeral-boundaries" and not a.get("canon"):
+                    ctx.fail("corr:printT:canon:numeral-boundaries", "the printer model's f components differ from Python's repr(float(v)) on "
+                             "the numeral-boundary probe", detail, kind="correspondence")
+    ctx.extra["nodesc_evaluated"] = "%d of %d schemas printed with include_descriptions=False satisfy printTextWF once stripped" % (n_off_wf, n_off)
+    ctx.extra["every_preimage_evaluated"] = ("%d of the printTextWF schemas it was evaluated on (of %d printTextWF schemas) have the printer's f = repr(float(v)) on every printed default "
+                                             "(CanonDoc); astToDoc of the parsed tree builds the same schema in %d of them (%d with numerals)"
+                                             % (n_canon, n_wf, n_pre, n_num))
     ctx.extra["printTextWF_satisfied"] = ("%d of %d printed schemas (descriptions on, no custom directives); of these %d of %d in "
                                           "the description-shape corpus" % (n_wf, n_desc, n_shape_wf, n_shape))
